@@ -112,7 +112,10 @@ func ruleC11LazyOnce(p *Prog, a *Anchors, r *Report) {
 		usesState := false
 		for _, b := range f.Blocks {
 			for _, in := range b.Instrs {
-				if c, ok := in.(*ssa.Call); ok && c.Common().StaticCallee() != nil && c.Common().StaticCallee().Name() == "getNodeState" {
+				if c, ok := in.(*ssa.Call); ok && c.Common().StaticCallee() != nil && c11ReadsNodeState(c.Common().StaticCallee()) {
+					usesState = true
+				}
+				if lk, ok := in.(*ssa.Lookup); ok && c11IsNodeStateMap(lk.X) {
 					usesState = true
 				}
 			}
@@ -350,4 +353,55 @@ func ruleC11TplName(p *Prog, a *Anchors, r *Report) {
 	if n == 0 {
 		r.Unk("none", "-", "no call of %s with a computed name", p.FuncName(a.NewTemplate))
 	}
+}
+
+// c11IsNodeStateMap: v is loaded from a map field of ExecutionContext that is keyed by INode (what a node keeps for the
+// rendering).
+func c11IsNodeStateMap(v ssa.Value) bool {
+	_, n, fld := fieldLoadBase(v)
+	if n == nil || n.Obj().Name() != "ExecutionContext" || fld == "" {
+		return false
+	}
+	m, ok := v.Type().Underlying().(*types.Map)
+	if !ok {
+		return false
+	}
+	k, ok := m.Key().(*types.Named)
+	return ok && k.Obj().Name() == "INode"
+}
+
+// c11ReadsNodeState: g is the accessor of that map: a method of ExecutionContext that looks a node up in it.
+func c11ReadsNodeState(g *ssa.Function) bool {
+	if g.Blocks == nil || g.Signature.Recv() == nil {
+		return false
+	}
+	if n := structOf(g.Signature.Recv().Type()); n == nil || n.Obj().Name() != "ExecutionContext" {
+		return false
+	}
+	for _, b := range g.Blocks {
+		for _, in := range b.Instrs {
+			if lk, ok := in.(*ssa.Lookup); ok && c11IsNodeStateMap(lk.X) {
+				return true
+			}
+		}
+	}
+	return false
+}
+
+// c11WritesNodeState: g is the setter of that map: a method of ExecutionContext that stores into it.
+func c11WritesNodeState(g *ssa.Function) bool {
+	if g.Blocks == nil || g.Signature.Recv() == nil {
+		return false
+	}
+	if n := structOf(g.Signature.Recv().Type()); n == nil || n.Obj().Name() != "ExecutionContext" {
+		return false
+	}
+	for _, b := range g.Blocks {
+		for _, in := range b.Instrs {
+			if mu, ok := in.(*ssa.MapUpdate); ok && c11IsNodeStateMap(mu.Map) {
+				return true
+			}
+		}
+	}
+	return false
 }
